@@ -49,9 +49,36 @@ def main(inp, outp):
     if job.get("snapshot"):
         out["snapshot"] = H.registry_snapshot(app)
     out["n_units0"] = len(units0)
+    if job.get("contexts"):
+        # a context that REDEFINES a unit: enabling it puts an overlay on app._units
+        ctx = pint.Context("c18redef")
+        ctx.redefine("calorie = 4 * joule")
+        app.add_context(ctx)
     for bid, blob in job["blobs"]:
         before = set(app._units)
         step = {"id": bid}
+        if isinstance(blob, tuple):                 # a history event other than an unpickling
+            step["ev"] = blob[0]
+            try:
+                if blob[0] == "enter":
+                    app.enable_contexts("c18redef")
+                elif blob[0] == "leave":
+                    app.disable_contexts()
+                elif blob[0] == "parse":
+                    app.parse_units(blob[1])
+                step["out"] = "ok"
+            except pint.UndefinedUnitError as e:
+                step["out"] = "undefined"
+                step["names"] = list(e.unit_names)
+            except pint.OffsetUnitCalculusError:
+                step["out"] = "offset"
+            except Exception as e:
+                step["out"] = "other"
+                step["err"] = f"{type(e).__name__}: {e}"[:300]
+            after = set(app._units)
+            step["new"], step["gone"] = sorted(after - before), sorted(before - after)
+            out["steps"].append(step)
+            continue
         try:
             obj = pickle.loads(blob)
         except pint.UndefinedUnitError as e:
@@ -69,6 +96,7 @@ def main(inp, outp):
             step["canon"] = H.jsonable(H.canon_obj(obj))
             step["order"] = list(obj._units._d)
             step["missing"] = [n for n in obj._units._d if n not in app._units]
+            step["render"] = H.render(obj)           # looks every unit's definition up (before anything self-heals)
             if job.get("convert"):
                 step["base"] = H.base_probe(obj)
         step["new"] = sorted(set(app._units) - before)
